@@ -12,7 +12,7 @@
   so that `p.bs[p.bsp]` is the head of `front`, `p.bs[p.bsp:]` is `front`, and the bytes just
   before the cursor (`p.bs[p.bsp-w:p.bsp]`, needed by `newLit` and the stop-word test) are the
   first `w` elements of `back`.  `p.litBs` is kept reversed in `lit` (`none` = nil slice).
-  `WF` below is the representation invariant; every primitive preserves it (Proofs/L2ByteSrc).
+  The representation invariant is part of the refinement relation `R` of Proofs/C07.lean.
 
   The reader.  `pending` are the bytes the `io.Reader` has not delivered yet, `sched` the chunk
   lengths it will return on the next `Read` calls (each capped by the free buffer space and by the
